@@ -17,6 +17,7 @@ import (
 	"time"
 
 	"github.com/cybergarage/go-redis/redis"
+	"github.com/cybergarage/go-redis/redis/auth"
 	"verif/double"
 	"verif/gen"
 	"verif/pki"
@@ -92,6 +93,8 @@ func newLcServer(listeners string) *lcServer {
 		s.srv.SetTLSCertFile(s.p.CertFile)
 		s.srv.SetTLSKeyFile(s.p.KeyFile)
 		s.srv.SetTLSCaCertFile(s.p.CAFile)
+		// a common-name rule: clients of the TLS port with another name complete the handshake and are then refused
+		s.srv.AddAuthenticator(auth.NewCertificateAuthenticatorWith(auth.WithCommonName("verif-client")))
 	}
 	return s
 }
@@ -529,6 +532,41 @@ func c15runGated(idx int, g c15gated) run.Result {
 			return res
 		}
 		reg := ctl.Count("conn.registered")
+		if s.plain == 0 {
+			// TLS port only: a raw TCP connection (no ClientHello yet) made while Stop is between its two phases.
+			// The server accepts it, or leaves it in the listen queue; either way, once Stop has returned the
+			// client must see the end of the connection. (The collector is kept away: a socket nobody refers to
+			// any more would be closed by its finalizer at some later collection.)
+			old := debug.SetGCPercent(-1)
+			raw, err := net.DialTimeout("tcp", fmt.Sprintf("127.0.0.1:%d", s.tls), 5*time.Second)
+			if err != nil {
+				debug.SetGCPercent(old)
+				ctl.Ungate("stop.mid")
+				<-done
+				res.Count("dial_during_stop_refused", 1)
+				return res
+			}
+			defer raw.Close()
+			// give the accept loop the chance to take the connection while Stop is parked (not a verdict)
+			time.Sleep(20 * time.Millisecond)
+			ctl.Ungate("stop.mid")
+			var stopErr error
+			select {
+			case stopErr = <-done:
+			case <-time.After(watchdog):
+				debug.SetGCPercent(old)
+				res.Inconclusive = "Stop did not return"
+				return res
+			}
+			closed := clientClosed(&tcpClient{c: raw})
+			debug.SetGCPercent(old)
+			if !closed {
+				res.Violate(sig+":survivor-handshaking", "after Stop returns every client connection has been closed", "a connection made to the TLS port while Stop was between closing the registered connections and closing the listeners saw neither EOF nor reset within 3 s after Stop returned", desc)
+				return res
+			}
+			afterStopReturned(&res, s, sig, stopErr, desc)
+			return res
+		}
 		c2, err := s.dial(s.plain == 0)
 		if err != nil {
 			// the listener is already closed: nothing to check in this order
@@ -966,6 +1004,7 @@ func stopStorm(res *run.Result, s *lcServer, ctl *sched.Ctl, idx int, rep int, p
 	r := rng.New(c15.seed, rng.Str("C15storm"), uint64(idx), uint64(rep))
 	var mu sync.Mutex
 	var conns []*tcpClient
+	var raws []net.Conn
 	stopDial := make(chan struct{})
 	var wg sync.WaitGroup
 	for d := 0; d < 16; d++ {
@@ -977,6 +1016,15 @@ func stopStorm(res *run.Result, s *lcServer, ctl *sched.Ctl, idx int, rep int, p
 				case <-stopDial:
 					return
 				default:
+				}
+				if s.tls != 0 && (d+k)%3 == 1 {
+					// a client of the TLS port that has not sent its ClientHello yet
+					if rc, err := net.DialTimeout("tcp", fmt.Sprintf("127.0.0.1:%d", s.tls), 5*time.Second); err == nil {
+						mu.Lock()
+						raws = append(raws, rc)
+						mu.Unlock()
+					}
+					continue
 				}
 				c, err := s.dial(s.tls != 0 && (d+k)%3 == 0)
 				if err != nil {
@@ -997,6 +1045,21 @@ func stopStorm(res *run.Result, s *lcServer, ctl *sched.Ctl, idx int, rep int, p
 	close(stopDial)
 	wg.Wait()
 	res.Count("storm_connections", int64(len(conns)))
+	res.Count("storm_connections_without_client_hello", int64(len(raws)))
+	// every connection made to the TLS port without a handshake must have been ended by the server
+	for _, rc := range raws {
+		if !clientClosed(&tcpClient{c: rc}) {
+			res.Violate(prop+":stop-under-connect-storm:handshaking-client-open", "after Stop returns every client connection has been closed", "a connection made to the TLS port during the storm (no ClientHello sent) saw neither EOF nor reset within 3 s after Stop returned", desc)
+			for _, rc := range raws {
+				rc.Close()
+			}
+			for _, c := range conns {
+				c.c.Close()
+			}
+			return
+		}
+		rc.Close()
+	}
 	// a connection that still ANSWERS after Stop returned is a definite violation (no timing involved)
 	for _, c := range conns {
 		c.c.SetDeadline(time.Now().Add(300 * time.Millisecond))
@@ -1163,6 +1226,21 @@ func c15runSeq(idx int, q c15seq) run.Result {
 				s.closed++
 				clients = clients[1:]
 			}
+			if s.tls != 0 && r.Chance(1, 3) {
+				// a client the common-name rule refuses: it is never served, so it must not appear in the registry
+				d := &net.Dialer{Timeout: 5 * time.Second}
+				if bad, err := tls.DialWithDialer(d, "tcp", fmt.Sprintf("127.0.0.1:%d", s.tls), s.p.ClientConfig(pki.CredWrongCN)); err == nil {
+					bc := &tcpClient{c: bad}
+					if v, err := bc.do("PING"); err == nil {
+						res.Violate(sig+":refused-client-served", "while running, the registry contains exactly the connections currently being served", fmt.Sprintf("a client refused by the common-name rule was answered %s", v), desc())
+						bad.Close()
+						return res
+					}
+					bad.Close()
+					s.closed++
+					res.Count("refused_tls_clients", 1)
+				}
+			}
 			// quiescent instant: every connection this harness ended has finished its goroutine
 			// (the conn.exit point fires whether or not the registry was updated)
 			if !ctl.WaitCount("conn.exit", s.closed, watchdog) {
@@ -1188,7 +1266,7 @@ func init() {
 	run.Register(&run.Prop{
 		ID: "C15", Level: "fault_enumeration",
 		Rule: func(tier string) string {
-			return "two parts. (gated, hook H2) a controller parks goroutines at named schedule points and releases them in a chosen order: Restart vs the exiting accept loops for {plain, TLS, both} listeners with each old loop's exit (and its deferred close) placed before Stop returns / after the new listeners are open / concurrently (3, 3 and 9 placements); Stop vs a connection accepted while Stop is between its two phases; Stop vs connection goroutines parked at their exit point; Stop in the middle of a connect storm (16 dialing goroutines, repeated; a connection that answers after Stop returned, or that is still registered at a fixed point, is a violation); Stop while a client whose handler is still running has already gone away by reset or FIN (the reset is known to have arrived when the kernel no longer lists the server-side socket); Stop while 24..64 registered clients hang up by FIN and reset at the same moment (free-running, repeated). What Stop promises is probed whenever Stop returns, with or without an error. Stop while a client of the TLS port has connected but not sent its ClientHello (it must see EOF or a reset within 3 s). A Start that fails in its TLS half (the TLS port is held by another socket) must leave the plain port bindable, and after Stop a new Start must work. A transient Accept failure: every free descriptor of the process is taken, one client per port is left waiting in the listen queue so that Accept fails with EMFILE, the descriptors are released, and every port must serve again. Postconditions probed after everything is released: dial+PING on every enabled port (twice), bind probe, client-side EOF, Conns() empty, goroutine profile. (histories) ALL call sequences over {Start, Stop, Restart} up to length 4 (quick) / 6 (thorough) x {plain, plain+TLS} with 0..3 clients connecting, idling or disconnecting between calls; after each call the promise of that call is probed, and at quiescent instants len(Conns()) must equal the number of client sockets held open (waiting on the conn.deregistered point, not on time). Start on a running server is tagged start-while-running. A goroutine leak is only reported when the count stays above baseline for the whole grace window; a goroutine parked at its own schedule point after Stop returned is a strict violation. Children are race-detector builds. distinct = scenario/sequence"
+			return "two parts. (gated, hook H2) a controller parks goroutines at named schedule points and releases them in a chosen order: Restart vs the exiting accept loops for {plain, TLS, both} listeners with each old loop's exit (and its deferred close) placed before Stop returns / after the new listeners are open / concurrently (3, 3 and 9 placements); Stop vs a connection accepted while Stop is between its two phases; Stop vs connection goroutines parked at their exit point; Stop in the middle of a connect storm (16 dialing goroutines, repeated; a connection that answers after Stop returned, or that is still registered at a fixed point, is a violation); Stop while a client whose handler is still running has already gone away by reset or FIN (the reset is known to have arrived when the kernel no longer lists the server-side socket); Stop while 24..64 registered clients hang up by FIN and reset at the same moment (free-running, repeated). What Stop promises is probed whenever Stop returns, with or without an error. Stop while a client of the TLS port has connected but not sent its ClientHello (it must see EOF or a reset within 3 s). A Start that fails in its TLS half (the TLS port is held by another socket) must leave the plain port bindable, and after Stop a new Start must work. A transient Accept failure: every free descriptor of the process is taken, one client per port is left waiting in the listen queue so that Accept fails with EMFILE, the descriptors are released, and every port must serve again. Postconditions probed after everything is released: dial+PING on every enabled port (twice), bind probe, client-side EOF, Conns() empty, goroutine profile. (histories) ALL call sequences over {Start, Stop, Restart} up to length 4 (quick) / 6 (thorough) x {plain, plain+TLS} with 0..3 clients connecting, idling or disconnecting between calls (and, on the TLS port, clients that a common-name rule refuses after their handshake); after each call the promise of that call is probed, and at quiescent instants len(Conns()) must equal the number of client sockets held open (waiting on the conn.deregistered point, not on time). Start on a running server is tagged start-while-running. A goroutine leak is only reported when the count stays above baseline for the whole grace window; a goroutine parked at its own schedule point after Stop returned is a strict violation. Children are race-detector builds. distinct = scenario/sequence"
 		},
 		Exhaustive:    func(string) bool { return true },
 		Assumptions:   []string{"TLS listeners are configured through the file-based path with a PKI minted at run time", "wall-clock watchdogs only produce 'inconclusive'"},
